@@ -94,6 +94,17 @@ func (r *Run) Violate(what string, replay any) {
 	}
 }
 
+// unknownViolations counts violations that are not instances of a recorded finding.
+func (r *Run) unknownViolations() int {
+	n := 0
+	for _, v := range r.Violations {
+		if m, ok := v.Replay.(map[string]any); !ok || m["finding_id"] == nil {
+			n++
+		}
+	}
+	return n
+}
+
 func (r *Run) Finish(rule string) {
 	must(r.ops.Flush())
 	must(r.impl.Flush())
